@@ -203,3 +203,15 @@ theorem g18_symmetric_as_written (θ : Nat → Rat) (c : Cmd) (k l : Nat) (hkl :
     · rfl
 
 end SFV.GaussSem
+
+namespace SFV.GaussSem
+
+/-- the interpretation depends on a command only through the fields `Program.__eq__` compares -/
+theorem g18_key (θ : Nat → Rat) (a b : Cmd) (h : a.key = b.key) : g18 θ a = g18 θ b := by
+  simp only [Cmd.key, Prod.mk.injEq] at h
+  obtain ⟨hc, hp, hr, hd, _⟩ := h
+  have hs : symmetricCls a = symmetricCls b := by simp [symmetricCls, hc]
+  unfold g18 loc18 par0
+  rw [hs, hr, hp, hc, hd]
+
+end SFV.GaussSem
